@@ -472,6 +472,49 @@ def run_criteria_array(case):
     return result(execs, ocs, fails[:20])
 
 
+# -- wild cards next to escaped wild cards, over texts that hold the wild-card characters themselves ------------------
+WILD_TEXTS = ['a?', 'a~?', 'ab', '?', 'a*', '*', 'a~*b', 'a', '~', 'ab?']
+WILD_CRIT = ['*~?', '~**', '?~*', '=*~?', '<>*~?', 'a~?', 'a~**', '~?', '~*', '*~**', '?~?', '~~', 'a~~*', '*~', 'a?~?', '<>~**', '=?~*', '~?*', '*~?*']
+
+
+def wild_cases(tier):
+    for n in (1, 2, 3):
+        vs = itertools.product(WILD_TEXTS, repeat=n) if n < 3 else itertools.combinations(WILD_TEXTS, 3)
+        for v in vs:
+            for fn, form in (('COUNTIF', '-'), ('SUMIF', 'sum'), ('AVERAGEIF', 'sum')):
+                if n == 3 and fn != 'COUNTIF' and tier == 'quick':
+                    continue
+                yield ['WILD', fn, list(v), form]
+
+
+def run_wild(case):
+    from xl.evalcell import eval_formula
+    _, fn, rawvec, form = case
+    rng = [dec(x) for x in rawvec]
+    n = len(rng)
+    sumr = None if fn == 'COUNTIF' else [dec(x) for x in SUMR[form][:n]]
+    ref = {'COUNTIF': L.countif, 'SUMIF': L.sumif, 'AVERAGEIF': L.averageif}[fn]
+    execs, ocs, fails = 0, [], []
+    for raw in WILD_CRIT:
+        crit, inputs = dec(raw), {}
+        a = place(as_table(rng, 'row'), 'ref', inputs)
+        for csp in ('lit', 'cell'):
+            args = [a, scalar(crit, csp, inputs)]
+            if sumr is not None:
+                args.append(place(as_table(sumr, 'row'), 'ref', inputs, col0=0, row0=2))
+            f = '=%s(%s)' % (fn, ','.join(args))
+            exp = ref(rng, crit) if sumr is None else ref(rng, crit, sumr)
+            got = eval_formula(f, inputs)
+            execs += 1
+            if exp is None:
+                ocs.append('%s:not-judged' % fn)
+                continue
+            ocs.append('%s:wild:%s' % (fn, okind(got)))
+            if not L.accepted(got, exp):
+                fails.append(Fail('criteria', got=got, exp=sorted(exp), fn=fn, form=form, orient='row', csp=csp, crit=show(crit), critk='t', rng=showvec(rng), rngk='t', formula=f, wild=True))
+    return result(execs, ocs, fails[:20])
+
+
 def criteria_array_cases(tier):
     for n in ((1, 2, 3) if tier == 'quick' else (1, 2, 3, 4)):
         for v in itertools.product(POOL_A, repeat=n):
@@ -486,7 +529,7 @@ def criteria_array_cases(tier):
 # -- driver --------------------------------------------------------------------
 RUNNERS = {'MATCH': run_match, 'INDEX': run_index, 'VLOOKUP': run_xlookup, 'HLOOKUP': run_xlookup, 'LOOKUP': run_lookup,
            'COUNTIF': run_criteria, 'SUMIF': run_criteria, 'AVERAGEIF': run_criteria,
-           'COUNTIF[]': run_criteria_array, 'SUMIF[]': run_criteria_array, 'AVERAGEIF[]': run_criteria_array}
+           'WILD': run_wild, 'COUNTIF[]': run_criteria_array, 'SUMIF[]': run_criteria_array, 'AVERAGEIF[]': run_criteria_array}
 
 
 def run_case(case):
@@ -507,6 +550,7 @@ def run(ctx):
     ctx.explore(run_case, lookup_cases(ctx.tier), chunksize=16, label='LOOKUP')
     ctx.explore(run_case, criteria_cases(ctx.tier), chunksize=16, label='COUNTIF/SUMIF/AVERAGEIF')
     ctx.explore(run_case, criteria_array_cases(ctx.tier), chunksize=8, label='criteria_arrays')
+    ctx.explore(run_case, wild_cases(ctx.tier), chunksize=8, label='escaped_and_live_wild_cards')
     return {'oracle_audit': {'corpus_formulas_judged': judged, 'per_function': per_fn, 'disagreements': 0},
             'sorted_key_vectors': len(sorted_vectors()), 'exact_key_vectors': sum(7 ** n for n in range(1, 5)),
             'criteria': len(CRITERIA), 'max_table': '6x6' if ctx.tier == 'thorough' else '4x4'}
